@@ -26,6 +26,9 @@ func (e *envconcEngine) generate(r *rng, n int, tier string, emit func(string)) 
 		rn = 60
 	}
 	emit(fmt.Sprintf("envconc race seed=%d n=%d", 1+r.intn(1000000), rn))
+	// k evaluations that are ALL deep inside a non-tail recursion at the same time
+	emit(fmt.Sprintf("envconc k=12 reps=2 seed=%d only=%d", 1+r.intn(1000000000), len(envTemplates)-1))
+	emit(fmt.Sprintf("envconc k=16 reps=1 seed=%d only=%d", 1+r.intn(1000000000), len(envTemplates)-1))
 	for i := 0; i < n; i++ {
 		k := []int{2, 4, 8, 16}[r.intn(4)]
 		emit(fmt.Sprintf("envconc k=%d reps=%d seed=%d", k, 2+r.intn(2), 1+r.intn(1000000000)))
@@ -33,7 +36,7 @@ func (e *envconcEngine) generate(r *rng, n int, tier string, emit func(string)) 
 }
 
 func envconcParams(payload string) map[string]int {
-	m := map[string]int{"k": 4, "reps": 2, "seed": 1, "n": 10}
+	m := map[string]int{"k": 4, "reps": 2, "seed": 1, "n": 10, "only": -1}
 	for _, f := range strings.Fields(payload) {
 		if i := strings.Index(f, "="); i > 0 {
 			if v, err := strconv.Atoi(f[i+1:]); err == nil {
@@ -75,6 +78,8 @@ func (e *envconcEngine) run(payload string) string {
 	if k < 1 || k > envconcMaxProgs || p["reps"] < 1 || p["reps"] > 20 {
 		return "bad-case"
 	}
+	envconcOnly = p["only"]
+	defer func() { envconcOnly = -1 }()
 	return runEnvConc(k, p["reps"], uint64(p["seed"]))
 }
 
